@@ -28,6 +28,9 @@ import (
 
 func TestMain(m *testing.M) { rec.Main(m, "C04") }
 
+// ruleMore describes what was added to the exploration in the build phase.
+const ruleMore = "; also: sentences with 1..3500 nested brackets, alternatives, juxtaposed operands, declarations or handles (sizes biased to powers of two and to 510/511/1017/1018), with and without one replaced token"
+
 const rule = "(1) every (state, terminal) and (state, non-terminal) pair of the embedded tables against the LALR(1) table built from the package's grammar, both directions, plus foreign symbols and states beyond the last (complete enumeration); " +
 	"(2) regeneration of parsing_table.go compared byte for byte; (3) all token-kind sequences over the 22 kinds by depth-first search with viable-prefix pruning up to a length bound, and random longer sequences (printed models with token edits): " +
 	"viable prefix?, accepted?, and for accepted sequences the full derivation, compared with an independent recursive-descent parser written from the documented grammar and precedence list; " +
@@ -41,7 +44,7 @@ type input struct {
 
 func TestTablesEntryForEntry(t *testing.T) {
 	rec.Begin(t)
-	rec.Rule(rule)
+	rec.Rule(rule + ruleMore)
 	if rec.Shard() != 0 {
 		t.Skip("seed independent: shard 0 only")
 	}
@@ -345,7 +348,7 @@ func ambiguity(kinds []string) []string {
 
 func TestAllTokenSequencesToBound(t *testing.T) {
 	rec.Begin(t)
-	rec.Rule(rule)
+	rec.Rule(rule + ruleMore)
 	maxLen := rec.Pick(10, 12)
 	var seqs, viable, accepted int
 	var walk func(prefix []string)
@@ -405,7 +408,7 @@ func TestAllTokenSequencesToBound(t *testing.T) {
 }
 
 func TestRandomLongSequences(t *testing.T) {
-	rec.Rule(rule)
+	rec.Rule(rule + ruleMore)
 	opts := gen.SpecOpts{MaxRules: 3, Depth: 4, Literals: []string{"a", "b"}, Tokens: []string{"TK", "NUM"}, Directives: 3, RuleHandles: true, DupRules: true, EmptyRules: true}
 	rec.Check(t, 3000, 120000, func(t *rapid.T) {
 		m := gen.Spec(t, opts)
@@ -442,7 +445,7 @@ func TestRandomLongSequences(t *testing.T) {
 // Deep and long sentences: the grammar bounds neither the nesting depth of brackets nor the number of alternatives or
 // juxtaposed operands, so a driver stack, a recursion or a fixed-size buffer must not either.
 func TestDeepAndLongSequences(t *testing.T) {
-	rec.Rule(rule)
+	rec.Rule(rule + ruleMore)
 	size := rapid.OneOf(rapid.IntRange(1, 40),
 		rapid.SampledFrom([]int{127, 128, 129, 255, 256, 257, 509, 510, 511, 512, 513, 1016, 1017, 1018, 1019, 1023, 1024, 1025, 2047, 2048, 2049, 3000}),
 		rapid.IntRange(41, 3500))
